@@ -535,6 +535,10 @@ func garbage(rng *rand.Rand) []byte {
 func (c *ctx) operatorMethods(phase string) {
 	r := c.r
 	op := c.operator()
+	if phase == "genesis-epoch" {
+		// MaxBlockChangeView as installed by initConfig (which accepts any value: 100, 1 or 2 here)
+		c.commitCases("genesis-config")
+	}
 	// --- SyncGenesisHeader of every buildable router through the header_sync entrance
 	for _, rt := range routers() {
 		if phase == "after-epoch" && rt.valid == nil && c.rng.Intn(3) != 0 {
@@ -596,7 +600,17 @@ func (c *ctx) operatorMethods(phase string) {
 			}
 		}
 	}
-	// --- CommitDpos before / when it is due
+	// --- CommitDpos before / when it is due, with the configuration in force now (>= 10000 after updateConfig)
+	c.commitCases("configured")
+	// --- boundary configurations of MaxBlockChangeView installed by the operator
+	c.commitBoundaries()
+}
+
+const maxU32 = uint64(4294967295)
+
+// commitCases runs the due / not-due matrix against the MaxBlockChangeView in force.
+func (c *ctx) commitCases(label string) {
+	r := c.r
 	for _, due := range []int{-1, 0, -1, 1} {
 		for _, cb := range c.operatorCombos() {
 			cfg, err := node_manager.GetConfig(c.e.Service())
@@ -604,39 +618,130 @@ func (c *ctx) operatorMethods(phase string) {
 				panic(err)
 			}
 			gv := c.view()
-			var delta uint32
+			mbcv := uint64(cfg.MaxBlockChangeView)
+			room := maxU32 - uint64(gv.Height) // heights are uint32
+			var delta uint64
 			switch due {
 			case -1:
-				delta = 1 + uint32(c.rng.Intn(int(cfg.MaxBlockChangeView)-1))
-				if c.rng.Intn(3) == 0 {
-					delta = cfg.MaxBlockChangeView - 1 // last height at which it is not due
+				delta = mbcv - 1 // last height at which it is not due
+				if mbcv > 1 && c.rng.Intn(3) != 0 {
+					delta = 1 + uint64(c.rng.Int63n(int64(mbcv-1)))
 				}
 			case 0:
-				delta = cfg.MaxBlockChangeView
+				delta = mbcv
 			default:
-				delta = cfg.MaxBlockChangeView + 1 + uint32(c.rng.Intn(1000))
+				delta = mbcv + 1 + uint64(c.rng.Intn(1000))
 			}
-			c.e.Height = gv.Height + delta
-			isDue := delta >= cfg.MaxBlockChangeView
-			name := "commitDpos/not-due"
-			if isDue {
-				name = "commitDpos/due"
+			if delta > room {
+				delta = room
 			}
-			rec := c.try("operator", name, utils.NodeManagerContractAddress, "commitDpos", nil, op, cb, isDue)
-			after := c.view()
-			if rec.Ok && after.View != gv.View+1 {
-				r.Count("commit_ok_without_view_change", 1)
+			if has(addrsOf(cb.signers), c.operator()) && delta > 1<<30 {
+				delta = 1 + uint64(c.rng.Intn(1000)) // keep the view height low: later cases need room above it
 			}
-			if !rec.Ok && after.View != gv.View {
-				r.Violation("operator:commitDpos:view-changed-by-rejected-call", "signed by "+cb.name, nil)
+			c.commitAt(label, gv, mbcv, delta, cb)
+		}
+	}
+	_ = r
+}
+
+// commitAt tries commitDpos `delta` blocks after the last view change.
+func (c *ctx) commitAt(label string, gv *node_manager.GovernanceView, mbcv, delta uint64, cb combo) *nat.CallRecord {
+	r := c.r
+	op := c.operator()
+	c.e.Height = gv.Height + uint32(delta)
+	isDue := delta >= mbcv // the statement's rule, computed without wrap-around
+	name := "commitDpos/not-due"
+	if isDue {
+		name = "commitDpos/due"
+	}
+	rec := c.try("operator", name, utils.NodeManagerContractAddress, "commitDpos", nil, op, cb, isDue)
+	r.Distinct("commit", label, mbcv == 1, mbcv == 2, mbcv > 1<<31, delta == 0, delta == mbcv-1, delta == mbcv, uint64(gv.Height)+mbcv > maxU32, cb.name, rec.Ok)
+	after := c.view()
+	if rec.Ok && after.View != gv.View+1 {
+		r.Count("commit_ok_without_view_change", 1)
+	}
+	if !rec.Ok && after.View != gv.View {
+		r.Violation("operator:commitDpos:view-changed-by-rejected-call", "signed by "+cb.name, nil)
+	}
+	witnessed := has(addrsOf(cb.signers), op)
+	if rec.Ok && !isDue {
+		r.Count("early_commit_by_operator_ok", 1)
+	}
+	if rec.Ok && isDue && !witnessed {
+		r.Count("due_commit_without_operator_ok", 1)
+	}
+	if !witnessed && !isDue {
+		r.Count("not_due_commit_without_operator:"+label, 1)
+		if uint64(gv.Height)+mbcv > maxU32 {
+			r.Count("not_due_commit_without_operator_where_viewheight+max_exceeds_uint32", 1)
+		}
+		if delta == mbcv-1 {
+			r.Count("not_due_commit_without_operator_at_last_not_due_height", 1)
+		}
+	}
+	return rec
+}
+
+// commitBoundaries: the operator installs boundary values of MaxBlockChangeView (updateConfig accepts
+// anything >= 10000 up to 2^32-1) and non-operators try to force the epoch change.
+func (c *ctx) commitBoundaries() {
+	r := c.r
+	setMax := func(v uint32) {
+		cfg := &node_manager.Configuration{BlockMsgDelay: 5000, HashMsgDelay: 5000, PeerHandshakeTimeout: 10, MaxBlockChangeView: v}
+		s := common.NewZeroCopySink(nil)
+		(&node_manager.UpdateConfigParam{Configuration: cfg}).Serialization(s)
+		must(c.e.Call(utils.NodeManagerContractAddress, "updateConfig", s.Bytes(), c.opSigner()), "updateConfig(boundary)")
+	}
+	// a regular epoch change by the operator at a moderate height first (view height > 0)
+	gv := c.view()
+	c.e.Height = gv.Height + 100 + uint32(c.rng.Intn(100))
+	must(c.e.Call(utils.NodeManagerContractAddress, "commitDpos", nil, c.opSigner()), "commitDpos(operator)")
+	gv = c.view()
+	vh := uint64(gv.Height)
+	values := []uint64{maxU32, maxU32 - 1, maxU32 - vh + uint64(c.rng.Intn(3)), maxU32 - vh + 1, maxU32 - vh, maxU32 - vh - 1, 1 << 31, (1 << 31) + vh, 10000}
+	var nonOp []combo
+	for _, cb := range c.operatorCombos() {
+		if !has(addrsOf(cb.signers), c.operator()) {
+			nonOp = append(nonOp, cb)
+		}
+	}
+	for _, v := range values {
+		if v < 10000 || v > maxU32 {
+			continue
+		}
+		setMax(uint32(v))
+		r.Count("boundary_configs_installed", 1)
+		room := maxU32 - vh
+		deltas := []uint64{1, 50, v - 1, v, v + 1, room, room - 1, v / 2, maxU32 - v, maxU32 - v + 1}
+		for _, d := range deltas {
+			if d == 0 || d > room {
+				continue
 			}
-			if rec.Ok && !isDue {
-				r.Count("early_commit_by_operator_ok", 1)
+			if d >= v && vh+d > maxU32-1000000 {
+				continue // a due commit may succeed and would leave no room above the new view height
 			}
-			if rec.Ok && isDue && !has(addrsOf(cb.signers), op) {
-				r.Count("due_commit_without_operator_ok", 1)
+			for i := 0; i < 3; i++ {
+				cb := nonOp[c.rng.Intn(len(nonOp))]
+				if i == 0 {
+					cb = combo{"unrelated-key", []pk.Signer{pk.Single(c.other)}}
+				}
+				rec := c.commitAt(fmt.Sprintf("boundary"), gv, v, d, cb)
+				if rec.Ok { // allowed only when due: a new view began, continue from it
+					gv = c.view()
+					vh = uint64(gv.Height)
+					room = maxU32 - vh
+					if room < 2 {
+						return
+					}
+				}
 			}
 		}
+	}
+	// back to an ordinary configuration, operator commit at the next height
+	setMax(10000 + uint32(c.rng.Intn(50)))
+	if uint64(c.view().Height) < maxU32-10 {
+		c.e.Height = c.view().Height + 1
+		must(c.e.Call(utils.NodeManagerContractAddress, "commitDpos", nil, c.opSigner()), "commitDpos(operator)")
 	}
 }
 
@@ -944,7 +1049,7 @@ func TestC18(t *testing.T) {
 	defer r.Finish()
 	r.Rule("rounds over fresh contract universes with 5..8 (thorough ..10) validators; per round the full table: operator-only methods " +
 		"(syncGenesisHeader of 21 routers through the header_sync entrance with well-formed genesis for btc/eth/bsc/heco/hsc and garbage otherwise, updateConfig, BlackChain, WhiteChain, " +
-		"commitDpos at not-due / last-not-due / first-due / due heights) x 12-14 signer combinations, 20 owner/approver methods x 9 combinations, then an epoch change that changes " +
+		"commitDpos at not-due / last-not-due / first-due / due heights with MaxBlockChangeView from initConfig (100, 1, 2), from a regular updateConfig and from boundary values installed by the operator (2^32-1, 2^32-2, 2^32-1-viewHeight+{-1,0,1,2}, 2^31, 2^31+viewHeight, 10000; heights up to 2^32-1)) x 12-14 signer combinations, 20 owner/approver methods x 9 combinations, then an epoch change that changes " +
 		"the validator set and the operator table again (with the earlier operator as an extra signer), plus calling-context programs (A->B->C nestings of a scripted contract, " +
 		"real contract as callee). 3/4 of the calls carry real signatures. Distinct = (class, method, signer combination, witnessed, outcome)")
 	rounds := r.N(3, 300)
@@ -959,10 +1064,19 @@ func TestC18(t *testing.T) {
 		}
 		keys := pk.NewKeys(rng, n+3)
 		c := &ctx{r: r, rng: rng, e: nat.New(5), cons: keys[:n], owner: keys[n], other: keys[n+1], other2: keys[n+2], nextID: 100, round: round}
-		if err := c.e.InitGovernance(c.cons); err != nil {
-			r.Inconclusive("InitGovernance: " + err.Error())
+		genesisMax := []uint32{100, 1, 2}[round%3]
+		vb := pk.SetConfig(5, c.cons)
+		vb.MaxBlockChangeView = genesisMax
+		sink := common.NewZeroCopySink(nil)
+		vb.Serialization(sink)
+		c.e.Height = 0
+		if rec := c.e.Call(utils.NodeManagerContractAddress, "initConfig", sink.Bytes()); !rec.Ok {
+			r.Inconclusive("initConfig: " + rec.Err)
 			return
 		}
+		c.e.Height = 1
+		c.e.Validators = c.cons
+		r.Count(fmt.Sprintf("rounds_with_genesis_MaxBlockChangeView=%d", genesisMax), 1)
 		func() {
 			defer func() {
 				if p := recover(); p != nil {
@@ -1006,6 +1120,11 @@ func TestC18(t *testing.T) {
 	r.Require("rejected_without_witness:owner", rounds*60)
 	r.Require("rejected_without_witness:approver", rounds*60)
 	r.Require("due_commit_without_operator_ok", rounds*4)
+	r.Require("boundary_configs_installed", rounds*2*8)
+	r.Require("not_due_commit_without_operator:boundary", rounds*2*60)
+	r.Require("not_due_commit_without_operator_where_viewheight+max_exceeds_uint32", rounds*2*30)
+	r.Require("not_due_commit_without_operator_at_last_not_due_height", rounds*10)
+	r.Require("not_due_commit_without_operator:genesis-config", rounds*5)
 	r.Require("early_commit_by_operator_ok", rounds*2)
 	r.Require("context_caller_recognised_at_depth>=1", rounds*10)
 	r.Require("context_real_callee_accepts_immediate_caller", rounds)
